@@ -8,6 +8,7 @@ import (
 	"github.com/emersion/go-imap/v2"
 	"github.com/emersion/go-imap/v2/internal"
 	"github.com/emersion/go-imap/v2/internal/imapwire"
+	"github.com/emersion/go-imap/v2/internal/utf7"
 )
 
 func getSelectOpts(options *imap.ListOptions) []string {
@@ -72,7 +73,8 @@ func (c *Client) List(ref, pattern string, options *imap.ListOptions) *ListComma
 			enc.Atom(selectOpts[i])
 		})
 	}
-	enc.SP().Mailbox(ref).SP().String(pattern)
+	enc.SP().Mailbox(ref).SP()
+	writeListPattern(enc.Encoder, pattern)
 	if returnOpts := getReturnOpts(options); len(returnOpts) > 0 {
 		enc.SP().Atom("RETURN").SP().List(len(returnOpts), func(i int) {
 			opt := returnOpts[i]
@@ -87,6 +89,13 @@ func (c *Client) List(ref, pattern string, options *imap.ListOptions) *ListComma
 	}
 	enc.end()
 	return cmd
+}
+
+// writeListPattern writes a list-mailbox. Like mailbox names, patterns are
+// encoded in modified UTF-7.
+func writeListPattern(enc *imapwire.Encoder, pattern string) {
+	pattern, _ = utf7.Encoding.NewEncoder().String(pattern)
+	enc.String(pattern)
 }
 
 func (c *Client) handleList() error {
